@@ -42,5 +42,9 @@ mod c14_gen;
 mod c15;
 #[cfg(all(kani, feature = "c16"))]
 mod c16;
+#[cfg(all(kani, feature = "c12"))]
+mod c12;
+#[cfg(all(kani, feature = "c18"))]
+mod c18;
 #[cfg(all(kani, feature = "gen"))]
 mod gen;
